@@ -1,1 +1,1025 @@
-(* Proofs/AggInv.v -- lemmas; see DESIGN.md section 7 *)
+(* Proofs/AggInv.v -- invariants of the aggregator state machine (Model/Aggregator.v):
+   append-only documented list, no-effect commands, claimed definitions, the module entry,
+   case invariance of command names, and the refinement of the one-pass specification
+   Spec/AggSpec.v (expected_keys). *)
+From Coq Require Import String List NArith Bool Arith Lia.
+From CMinx Require Import Base.Str Model.Lexer Model.Parser Model.Writer Model.DocTypes
+     Model.Aggregator Spec.EntrySpec Spec.AggSpec.
+Import ListNotations.
+
+(* ---- spec ---- *)
+
+(* prefix-with-evolution: l' is an elementwise R-evolution of l followed by new elements *)
+Definition list_ext {A} (R : A -> A -> Prop) (l l' : list A) : Prop :=
+  exists l1 new, l' = l1 ++ new /\ Forall2 R l l1.
+
+(* a method keeps everything except that parameters are appended and the macro flag may change *)
+Definition method_evolves (m m' : method) : Prop :=
+  m_name m' = m_name m /\ m_doc m' = m_doc m /\ m_parent m' = m_parent m
+  /\ m_types m' = m_types m /\ m_ctor m' = m_ctor m /\ m_docd m' = m_docd m
+  /\ exists extra, m_params m' = m_params m ++ extra.
+
+(* what may happen to an entry once it is in the documented list *)
+Definition entry_evolves (e e' : entry) : Prop :=
+  match e, e' with
+  | EFunction m n d p k, EFunction m' n' d' p' k' =>
+      m' = m /\ n' = n /\ d' = d /\ p' = p /\ (k = true -> k' = true)
+  | ETest sec n d xf ps _, ETest sec' n' d' xf' ps' _ =>
+      sec' = sec /\ n' = n /\ d' = d /\ xf' = xf /\ exists extra, ps' = ps ++ extra
+  | EClass n d su inn ct me at_, EClass n' d' su' inn' ct' me' at' =>
+      n' = n /\ d' = d /\ su' = su /\ (exists x, inn' = inn ++ x)
+      /\ list_ext method_evolves ct ct' /\ list_ext method_evolves me me'
+      /\ (exists x, at' = at_ ++ x)
+  | _, _ => e' = e
+  end.
+
+Definition is_module (e : entry) : bool :=
+  match e with EModule _ _ => true | _ => false end.
+
+Definition no_module (l : list entry) : bool := forallb (fun e => negb (is_module e)) l.
+
+Definition recase_cmd (g : str -> str) (c : cmd) : cmd :=
+  {| c_name := g (c_name c); c_args := c_args c |}.
+
+Definition recase_elem (g : str -> str) (e : element) : element :=
+  match e with
+  | EDocCmd d c => EDocCmd d (recase_cmd g c)
+  | ECmd c => ECmd (recase_cmd g c)
+  | EDangling d => EDangling d
+  end.
+
+Definition recase_file (g : str -> str) (f : cfile) : cfile :=
+  {| f_module := f_module f; f_elems := map (recase_elem g) (f_elems f) |}.
+
+(* the three command kinds that pop a stack *)
+Definition is_pop_kind (k : str) : bool :=
+  str_eqb k (s"cpp_end_class") || str_eqb k (s"endfunction") || str_eqb k (s"endmacro").
+
+Definition aw_pending (a : await) : bool :=
+  match a with AwNone => false | _ => true end.
+
+(* ---- strings -------------------------------------------------------------------- *)
+
+Lemma str_eqb_eq : forall a b, str_eqb a b = true <-> a = b.
+Proof.
+  induction a as [|x a IH]; intros [|y b]; cbn [str_eqb]; split; intro H;
+    try reflexivity; try discriminate.
+  - apply andb_true_iff in H. destruct H as [H1 H2].
+    apply N.eqb_eq in H1. apply IH in H2. subst. reflexivity.
+  - inversion H; subst. apply andb_true_iff. split.
+    + apply N.eqb_refl.
+    + apply IH. reflexivity.
+Qed.
+
+Lemma str_eqb_refl : forall a, str_eqb a a = true.
+Proof. intro a. apply str_eqb_eq. reflexivity. Qed.
+
+(* evaluate comparisons and table lookups of literal command names *)
+Ltac red_lits :=
+  repeat match goal with
+  | |- context [str_eqb (of_string ?a) (of_string ?b)] =>
+      let v := eval vm_compute in (str_eqb (of_string a) (of_string b)) in
+      change (str_eqb (of_string a) (of_string b)) with v
+  | |- context [@lookup ?A (of_string ?a) ?t] =>
+      let v := eval vm_compute in (@lookup A (of_string a) t) in
+      change (@lookup A (of_string a) t) with v
+  | |- context [is_def_name (of_string ?a)] =>
+      let v := eval vm_compute in (is_def_name (of_string a)) in
+      change (is_def_name (of_string a)) with v
+  end;
+  cbn [andb orb negb].
+
+Ltac red_lits_in H :=
+  repeat match type of H with
+  | context [str_eqb (of_string ?a) (of_string ?b)] =>
+      let v := eval vm_compute in (str_eqb (of_string a) (of_string b)) in
+      change (str_eqb (of_string a) (of_string b)) with v in H
+  | context [@lookup ?A (of_string ?a) ?t] =>
+      let v := eval vm_compute in (@lookup A (of_string a) t) in
+      change (@lookup A (of_string a) t) with v in H
+  | context [is_def_name (of_string ?a)] =>
+      let v := eval vm_compute in (is_def_name (of_string a)) in
+      change (is_def_name (of_string a)) with v in H
+  end;
+  cbn [andb orb negb] in H.
+
+(* ---- command kinds --------------------------------------------------------------- *)
+
+Inductive ckind :=
+| CkDef (is_macro : bool) | CkEndDef | CkClass | CkEndClass | CkCpa
+| CkTest (is_section : bool) | CkSet | CkMember (is_ctor : bool) | CkAttr
+| CkAddTest | CkOption | CkOther.
+
+Definition classify (k : str) : ckind :=
+  if str_eqb k (s"function") then CkDef false
+  else if str_eqb k (s"macro") then CkDef true
+  else if str_eqb k (s"endfunction") then CkEndDef
+  else if str_eqb k (s"endmacro") then CkEndDef
+  else if str_eqb k (s"cpp_class") then CkClass
+  else if str_eqb k (s"cpp_end_class") then CkEndClass
+  else if str_eqb k (s"cmake_parse_arguments") then CkCpa
+  else if str_eqb k (s"ct_add_test") then CkTest false
+  else if str_eqb k (s"ct_add_section") then CkTest true
+  else if str_eqb k (s"set") then CkSet
+  else if str_eqb k (s"cpp_member") then CkMember false
+  else if str_eqb k (s"cpp_constructor") then CkMember true
+  else if str_eqb k (s"cpp_attr") then CkAttr
+  else if str_eqb k (s"add_test") then CkAddTest
+  else if str_eqb k (s"option") then CkOption
+  else CkOther.
+
+Definition other_kind (k : str) : Prop :=
+  str_eqb k (s"function") = false /\ str_eqb k (s"macro") = false
+  /\ str_eqb k (s"endfunction") = false /\ str_eqb k (s"endmacro") = false
+  /\ str_eqb k (s"cpp_class") = false /\ str_eqb k (s"cpp_end_class") = false
+  /\ str_eqb k (s"cmake_parse_arguments") = false /\ str_eqb k (s"ct_add_test") = false
+  /\ str_eqb k (s"ct_add_section") = false /\ str_eqb k (s"set") = false
+  /\ str_eqb k (s"cpp_member") = false /\ str_eqb k (s"cpp_constructor") = false
+  /\ str_eqb k (s"cpp_attr") = false /\ str_eqb k (s"add_test") = false
+  /\ str_eqb k (s"option") = false.
+
+Lemma classify_spec : forall k,
+  match classify k with
+  | CkDef false => k = s"function"
+  | CkDef true => k = s"macro"
+  | CkEndDef => k = s"endfunction" \/ k = s"endmacro"
+  | CkClass => k = s"cpp_class"
+  | CkEndClass => k = s"cpp_end_class"
+  | CkCpa => k = s"cmake_parse_arguments"
+  | CkTest false => k = s"ct_add_test"
+  | CkTest true => k = s"ct_add_section"
+  | CkSet => k = s"set"
+  | CkMember false => k = s"cpp_member"
+  | CkMember true => k = s"cpp_constructor"
+  | CkAttr => k = s"cpp_attr"
+  | CkAddTest => k = s"add_test"
+  | CkOption => k = s"option"
+  | CkOther => other_kind k
+  end.
+Proof.
+  intro k. unfold classify, other_kind.
+  destruct (str_eqb k (s"function")) eqn:E1; [apply str_eqb_eq; exact E1|].
+  destruct (str_eqb k (s"macro")) eqn:E2; [apply str_eqb_eq; exact E2|].
+  destruct (str_eqb k (s"endfunction")) eqn:E3; [left; apply str_eqb_eq; exact E3|].
+  destruct (str_eqb k (s"endmacro")) eqn:E4; [right; apply str_eqb_eq; exact E4|].
+  destruct (str_eqb k (s"cpp_class")) eqn:E5; [apply str_eqb_eq; exact E5|].
+  destruct (str_eqb k (s"cpp_end_class")) eqn:E6; [apply str_eqb_eq; exact E6|].
+  destruct (str_eqb k (s"cmake_parse_arguments")) eqn:E7; [apply str_eqb_eq; exact E7|].
+  destruct (str_eqb k (s"ct_add_test")) eqn:E8; [apply str_eqb_eq; exact E8|].
+  destruct (str_eqb k (s"ct_add_section")) eqn:E9; [apply str_eqb_eq; exact E9|].
+  destruct (str_eqb k (s"set")) eqn:E10; [apply str_eqb_eq; exact E10|].
+  destruct (str_eqb k (s"cpp_member")) eqn:E11; [apply str_eqb_eq; exact E11|].
+  destruct (str_eqb k (s"cpp_constructor")) eqn:E12; [apply str_eqb_eq; exact E12|].
+  destruct (str_eqb k (s"cpp_attr")) eqn:E13; [apply str_eqb_eq; exact E13|].
+  destruct (str_eqb k (s"add_test")) eqn:E14; [apply str_eqb_eq; exact E14|].
+  destruct (str_eqb k (s"option")) eqn:E15; [apply str_eqb_eq; exact E15|].
+  repeat split; reflexivity.
+Qed.
+
+Lemma other_kind_lookup : forall k, other_kind k -> lookup k handler_table = None.
+Proof.
+  intros k H. unfold other_kind in H.
+  destruct H as (H1&H2&H3&H4&H5&H6&H7&H8&H9&H10&H11&H12&H13&H14&H15).
+  cbn [lookup handler_table].
+  rewrite H1, H2, H7, H8, H9, H10, H5, H11, H12, H13, H14, H15. reflexivity.
+Qed.
+
+(* destruct the kind of a command-name string: literal kinds are substituted *)
+Ltac kind_cases k Hk :=
+  pose proof (classify_spec k) as Hk;
+  destruct (classify k) as [[|]| | | | |[|]| |[|]| | | |] eqn:?Ek.
+Section Classified.
+  Variable fl : flags.
+  Variable trigger : str.
+  Variables strip_fn strip_mac strip_mem : str -> str.
+
+  (* the process_* method of a kind *)
+  Definition handle (k : ckind) (c : cmd) (doc : str) (docd : bool) (st : agg) : result agg :=
+    match k with
+    | CkDef m => process_def trigger strip_fn strip_mac m c doc docd st
+    | CkCpa => Ok (process_cpa st)
+    | CkTest sec => Ok (process_test sec c doc docd st)
+    | CkSet => process_set c doc docd st
+    | CkClass => Ok (process_class c doc docd st)
+    | CkMember ctor => Ok (process_member ctor c doc docd st)
+    | CkAttr => Ok (process_attr c doc docd st)
+    | CkAddTest => Ok (process_add_test c doc docd st)
+    | CkOption => Ok (process_option c doc docd st)
+    | CkEndDef | CkEndClass | CkOther => Ok st
+    end.
+
+  Definition flag_of (k : ckind) : bool :=
+    match k with
+    | CkDef false => inc_function fl
+    | CkDef true => inc_macro fl
+    | CkClass => inc_cpp_class fl
+    | CkAttr => inc_cpp_attr fl
+    | CkMember true => inc_cpp_constructor fl
+    | CkMember false => inc_cpp_member fl
+    | CkTest false => inc_ct_add_test fl
+    | CkTest true => inc_ct_add_section fl
+    | CkAddTest => inc_add_test fl
+    | CkOption => inc_option fl
+    | _ => false
+    end.
+
+  Definition enter_documented_k (k : ckind) (command : str) (d : str) (c : cmd) (st : agg) : result agg :=
+    match k with
+    | CkEndDef | CkEndClass | CkOther =>
+        Ok (process_generic command c (clean_doc_text d) true st)
+    | _ => handle k c (clean_doc_text d) true st
+    end.
+
+  Lemma enter_documented_eq : forall d c st,
+    enter_documented trigger strip_fn strip_mac d c st
+    = enter_documented_k (classify (lower_ascii (c_name c))) (lower_ascii (c_name c)) d c st.
+  Proof.
+    intros d c st. unfold enter_documented.
+    generalize (lower_ascii (c_name c)) as k. intro k.
+    kind_cases k Hk; try (subst k; red_lits; reflexivity).
+    - destruct Hk as [Hk|Hk]; subst k; red_lits; reflexivity.
+    - rewrite (other_kind_lookup k Hk). reflexivity.
+  Qed.
+
+  (* the implementing definition of a pending member/test declaration *)
+  Definition claim (is_macro consumed : bool) (c : cmd) (st : agg) : agg :=
+    let raw := singles c in
+    let params := match awaiting st with
+                  | AwMethod _ _ => map strip_mem raw
+                  | _ => raw
+                  end in
+    let extra := if Nat.ltb 2 (length params) then skipn 2 params else [] in
+    let st2 := with_awaiting AwNone
+                 (with_docs (upd_awaiting_entry (awaiting st) is_macro extra) st) in
+    if consumed then st2 else with_def_stack (None :: def_stack st2) st2.
+
+  Definition enter_command_k (k : ckind) (consumed : bool) (c : cmd) (st : agg) : result agg :=
+    match k with
+    | CkClass =>
+        if negb (inc_cpp_class fl) then Ok (with_class_stack (None :: class_stack st) st)
+        else if consumed then Ok st else Ok (process_class c [] false st)
+    | CkEndClass =>
+        match class_stack st with [] => Crash | _ :: cs => Ok (with_class_stack cs st) end
+    | CkCpa => Ok (process_cpa st)
+    | CkDef m =>
+        if aw_pending (awaiting st) then Ok (claim m consumed c st)
+        else if consumed then Ok st
+        else if flag_of k then process_def trigger strip_fn strip_mac m c [] false st
+        else Ok (with_def_stack (None :: def_stack st) st)
+    | CkEndDef =>
+        match def_stack st with [] => Crash | _ :: ds => Ok (with_def_stack ds st) end
+    | CkSet | CkOther => Ok st
+    | _ => if consumed then Ok st else if flag_of k then handle k c [] false st else Ok st
+    end.
+
+  Lemma enter_command_eq : forall consumed c st,
+    enter_command fl trigger strip_fn strip_mac strip_mem consumed c st
+    = enter_command_k (classify (lower_ascii (c_name c))) consumed c st.
+  Proof.
+    intros consumed c st. unfold enter_command.
+    generalize (lower_ascii (c_name c)) as k. intro k.
+    kind_cases k Hk.
+    all: try (subst k; red_lits; cbn [enter_command_k flag_of handle include_flag run_handler]).
+    - unfold claim. destruct (awaiting st); cbn [aw_pending]; destruct consumed; try reflexivity.
+      all: destruct (inc_function fl); reflexivity.
+    - unfold claim. destruct (awaiting st); cbn [aw_pending]; destruct consumed; try reflexivity.
+      all: destruct (inc_macro fl); reflexivity.
+    - destruct Hk as [Hk|Hk]; subst k; red_lits; reflexivity.
+    - destruct (inc_cpp_class fl); destruct consumed; reflexivity.
+    - reflexivity.
+    - reflexivity.
+    - destruct consumed; reflexivity.
+    - destruct consumed; reflexivity.
+    - reflexivity.
+    - destruct consumed; reflexivity.
+    - destruct consumed; reflexivity.
+    - destruct consumed; reflexivity.
+    - destruct consumed; reflexivity.
+    - destruct consumed; reflexivity.
+    - rewrite (other_kind_lookup k Hk). unfold other_kind in Hk.
+      destruct Hk as (H1&H2&H3&H4&H5&H6&H7&H8&H9&H10&H11&H12&H13&H14&H15).
+      unfold is_def_name. rewrite H1, H2, H3, H4, H5, H6, H7, H10.
+      cbn [andb orb negb]. destruct consumed; reflexivity.
+  Qed.
+End Classified.
+
+(* ---- lists ----------------------------------------------------------------------- *)
+
+Lemma update_nth_length : forall {A} (f : A -> A) l n, length (update_nth n f l) = length l.
+Proof.
+  intros A f l. induction l as [|x r IH]; intros [|n]; cbn [update_nth length]; try reflexivity.
+  rewrite IH. reflexivity.
+Qed.
+
+Lemma nth_error_update_nth : forall {A} (f : A -> A) l i j,
+  nth_error (update_nth i f l) j
+  = if Nat.eqb i j then option_map f (nth_error l j) else nth_error l j.
+Proof.
+  intros A f l. induction l as [|x r IH]; intros [|i] [|j]; cbn [update_nth nth_error Nat.eqb option_map];
+    try reflexivity.
+  - destruct (Nat.eqb _ _); reflexivity.
+  - apply IH.
+Qed.
+
+Lemma nth_error_update_nth_fix : forall {A} (f : A -> A) l i j x,
+  nth_error l j = Some x -> f x = x -> nth_error (update_nth i f l) j = Some x.
+Proof.
+  intros A f l i j x H Hf. rewrite nth_error_update_nth. rewrite H. cbn [option_map].
+  rewrite Hf. destruct (Nat.eqb i j); reflexivity.
+Qed.
+
+Lemma update_last_nil : forall {A} (f : A -> A), update_last f [] = [].
+Proof. reflexivity. Qed.
+
+Lemma update_last_snoc : forall {A} (f : A -> A) l x, update_last f (l ++ [x]) = l ++ [f x].
+Proof.
+  intros A f l x. unfold update_last. rewrite rev_app_distr. cbn [rev app].
+  rewrite rev_involutive. reflexivity.
+Qed.
+
+Lemma update_last_length : forall {A} (f : A -> A) l, length (update_last f l) = length l.
+Proof.
+  intros A f l. destruct l as [|a r] using rev_ind; [reflexivity|].
+  rewrite update_last_snoc. rewrite !app_length. reflexivity.
+Qed.
+
+Lemma Forall2_refl : forall {A} (R : A -> A -> Prop), (forall x, R x x) -> forall l, Forall2 R l l.
+Proof. intros A R HR l. induction l as [|x r IH]; constructor; auto. Qed.
+
+Lemma Forall2_trans : forall {A} (R : A -> A -> Prop),
+  (forall x y z, R x y -> R y z -> R x z) ->
+  forall l1 l2 l3, Forall2 R l1 l2 -> Forall2 R l2 l3 -> Forall2 R l1 l3.
+Proof.
+  intros A R HR l1 l2 l3 H12. revert l3.
+  induction H12 as [|x y l1 l2 Hxy H12 IH]; intros l3 H23; inversion H23; subst; constructor.
+  - eapply HR; eassumption.
+  - apply IH. assumption.
+Qed.
+
+Lemma Forall2_update_nth : forall {A} (R : A -> A -> Prop) (f : A -> A),
+  (forall x, R x x) -> (forall x, R x (f x)) ->
+  forall l i, Forall2 R l (update_nth i f l).
+Proof.
+  intros A R f Hr Hf l. induction l as [|x r IH]; intros [|i]; cbn [update_nth]; constructor; auto.
+  apply Forall2_refl. assumption.
+Qed.
+
+Lemma Forall2_update_last : forall {A} (R : A -> A -> Prop) (f : A -> A),
+  (forall x, R x x) -> (forall x, R x (f x)) ->
+  forall l, Forall2 R l (update_last f l).
+Proof.
+  intros A R f Hr Hf l. destruct l as [|a r] using rev_ind; [constructor|].
+  rewrite update_last_snoc. apply Forall2_app.
+  - apply Forall2_refl. assumption.
+  - constructor; [apply Hf|constructor].
+Qed.
+
+Lemma Forall2_len : forall {A B} (R : A -> B -> Prop) l l', Forall2 R l l' -> length l = length l'.
+Proof. intros A B R l l' H. induction H; cbn [length]; congruence. Qed.
+
+Lemma list_ext_refl : forall {A} (R : A -> A -> Prop), (forall x, R x x) -> forall l, list_ext R l l.
+Proof.
+  intros A R Hr l. exists l, []. split; [rewrite app_nil_r; reflexivity|].
+  apply Forall2_refl. assumption.
+Qed.
+
+Lemma list_ext_trans : forall {A} (R : A -> A -> Prop),
+  (forall x y z, R x y -> R y z -> R x z) ->
+  forall l1 l2 l3, list_ext R l1 l2 -> list_ext R l2 l3 -> list_ext R l1 l3.
+Proof.
+  intros A R Ht l1 l2 l3 (a & n1 & E1 & F1) (b & n2 & E2 & F2). subst l2.
+  apply Forall2_app_inv_l in F2. destruct F2 as (b1 & b2 & Fa & Fb & Eb). subst b.
+  exists b1, (b2 ++ n2). split.
+  - rewrite E2. rewrite app_assoc. reflexivity.
+  - eapply Forall2_trans; eassumption.
+Qed.
+
+Lemma list_ext_snoc : forall {A} (R : A -> A -> Prop), (forall x, R x x) ->
+  forall l x, list_ext R l (l ++ [x]).
+Proof.
+  intros A R Hr l x. exists l, [x]. split; [reflexivity|]. apply Forall2_refl. assumption.
+Qed.
+
+Lemma list_ext_same : forall {A} (R : A -> A -> Prop) l l', Forall2 R l l' -> list_ext R l l'.
+Proof. intros A R l l' H. exists l', []. split; [rewrite app_nil_r; reflexivity|assumption]. Qed.
+
+Lemma list_ext_length : forall {A} (R : A -> A -> Prop) l l', list_ext R l l' -> length l <= length l'.
+Proof.
+  intros A R l l' (a & n & E & F). subst l'. rewrite app_length.
+  apply Forall2_len in F. lia.
+Qed.
+
+(* ---- entries evolve -------------------------------------------------------------- *)
+
+Lemma method_evolves_refl : forall m, method_evolves m m.
+Proof.
+  intro m. unfold method_evolves. repeat split. exists []. rewrite app_nil_r. reflexivity.
+Qed.
+
+Lemma method_evolves_trans : forall a b c, method_evolves a b -> method_evolves b c -> method_evolves a c.
+Proof.
+  intros a b c (A1&A2&A3&A4&A5&A6&x&A7) (B1&B2&B3&B4&B5&B6&y&B7).
+  unfold method_evolves. repeat split; try congruence.
+  exists (x ++ y). rewrite B7, A7, app_assoc. reflexivity.
+Qed.
+
+Lemma upd_method_evolves : forall mac extra m, method_evolves m (upd_method mac extra m).
+Proof.
+  intros mac extra m. unfold method_evolves, upd_method. cbn. repeat split. exists extra. reflexivity.
+Qed.
+
+Lemma entry_evolves_refl : forall e, entry_evolves e e.
+Proof.
+  intros [m n d p k|n d t v|n d v h|n d p|n d p|sec n d xf ps mac|n d su inn ct me at_|n d];
+    cbn [entry_evolves]; try reflexivity.
+  - repeat split; auto.
+  - repeat split. exists []. rewrite app_nil_r. reflexivity.
+  - repeat split.
+    + exists []. rewrite app_nil_r. reflexivity.
+    + apply list_ext_refl. apply method_evolves_refl.
+    + apply list_ext_refl. apply method_evolves_refl.
+    + exists []. rewrite app_nil_r. reflexivity.
+Qed.
+
+Lemma entry_evolves_trans : forall a b c, entry_evolves a b -> entry_evolves b c -> entry_evolves a c.
+Proof.
+  intros a b c Hab Hbc.
+  destruct a as [m n d p k|n d t v|n d v h|n d p|n d p|sec n d xf ps mac|n d su inn ct me at_|n d];
+  destruct b as [m1 n1 d1 p1 k1|n1 d1 t1 v1|n1 d1 v1 h1|n1 d1 p1|n1 d1 p1|sec1 n1 d1 xf1 ps1 mac1|n1 d1 su1 inn1 ct1 me1 at1|n1 d1];
+  cbn [entry_evolves] in Hab; try discriminate Hab;
+  try (injection Hab as; subst; exact Hbc).
+  - destruct c as [m2 n2 d2 p2 k2|n2 d2 t2 v2|n2 d2 v2 h2|n2 d2 p2|n2 d2 p2|sec2 n2 d2 xf2 ps2 mac2|n2 d2 su2 inn2 ct2 me2 at2|n2 d2];
+      cbn [entry_evolves] in Hbc |- *; try discriminate Hbc.
+    destruct Hab as (A1&A2&A3&A4&A5). destruct Hbc as (B1&B2&B3&B4&B5).
+    subst. repeat split; auto.
+  - destruct c as [m2 n2 d2 p2 k2|n2 d2 t2 v2|n2 d2 v2 h2|n2 d2 p2|n2 d2 p2|sec2 n2 d2 xf2 ps2 mac2|n2 d2 su2 inn2 ct2 me2 at2|n2 d2];
+      cbn [entry_evolves] in Hbc |- *; try discriminate Hbc.
+    destruct Hab as (A1&A2&A3&A4&x&A5). destruct Hbc as (B1&B2&B3&B4&y&B5).
+    subst. repeat split; auto. exists (x ++ y). rewrite app_assoc. reflexivity.
+  - destruct c as [m2 n2 d2 p2 k2|n2 d2 t2 v2|n2 d2 v2 h2|n2 d2 p2|n2 d2 p2|sec2 n2 d2 xf2 ps2 mac2|n2 d2 su2 inn2 ct2 me2 at2|n2 d2];
+      cbn [entry_evolves] in Hbc |- *; try discriminate Hbc.
+    destruct Hab as (A1&A2&A3&(x&A4)&A5&A6&(x'&A7)). destruct Hbc as (B1&B2&B3&(y&B4)&B5&B6&(y'&B7)).
+    subst. repeat split; auto.
+    + exists (x ++ y). rewrite app_assoc. reflexivity.
+    + eapply list_ext_trans; [apply method_evolves_trans| |]; eassumption.
+    + eapply list_ext_trans; [apply method_evolves_trans| |]; eassumption.
+    + exists (x' ++ y'). rewrite app_assoc. reflexivity.
+Qed.
+
+Lemma entry_evolves_ekey : forall a b, entry_evolves a b -> ekey b = ekey a.
+Proof.
+  intros a b H.
+  destruct a as [m n d p k|n d t v|n d v h|n d p|n d p|sec n d xf ps mac|n d su inn ct me at_|n d];
+  destruct b as [m1 n1 d1 p1 k1|n1 d1 t1 v1|n1 d1 v1 h1|n1 d1 p1|n1 d1 p1|sec1 n1 d1 xf1 ps1 mac1|n1 d1 su1 inn1 ct1 me1 at1|n1 d1];
+  cbn [entry_evolves] in H; try discriminate H; try (injection H as; subst; reflexivity).
+  - destruct H as (A1&A2&_). subst. reflexivity.
+  - destruct H as (A1&A2&_). subst. reflexivity.
+  - destruct H as (A1&A2&_). subst. reflexivity.
+Qed.
+
+Lemma entry_evolves_is_module : forall a b, entry_evolves a b -> is_module b = is_module a.
+Proof.
+  intros a b H.
+  destruct a as [m n d p k|n d t v|n d v h|n d p|n d p|sec n d xf ps mac|n d su inn ct me at_|n d];
+  destruct b as [m1 n1 d1 p1 k1|n1 d1 t1 v1|n1 d1 v1 h1|n1 d1 p1|n1 d1 p1|sec1 n1 d1 xf1 ps1 mac1|n1 d1 su1 inn1 ct1 me1 at1|n1 d1];
+  cbn [entry_evolves] in H; try discriminate H; reflexivity.
+Qed.
+
+Lemma entry_evolves_module : forall n d b, entry_evolves (EModule n d) b -> b = EModule n d.
+Proof. intros n d b H. destruct b; exact H. Qed.
+
+(* the updaters used by the aggregator *)
+Lemma set_kwargs_evolves : forall e, entry_evolves e (set_kwargs e).
+Proof.
+  intro e. destruct e; try apply entry_evolves_refl. cbn. repeat split; auto.
+Qed.
+
+Lemma add_inner_evolves : forall x e, entry_evolves e (add_inner x e).
+Proof.
+  intros x e. destruct e as [| | | | | |n d su inn ct me at_|]; try apply entry_evolves_refl.
+  cbn [add_inner entry_evolves]. repeat split.
+  - exists [x]. reflexivity.
+  - apply list_ext_refl, method_evolves_refl.
+  - apply list_ext_refl, method_evolves_refl.
+  - exists []. rewrite app_nil_r. reflexivity.
+Qed.
+
+Lemma add_method_evolves : forall b m e, entry_evolves e (add_method b m e).
+Proof.
+  intros b m e. destruct e as [| | | | | |n d su inn ct me at_|]; try apply entry_evolves_refl.
+  cbn [add_method]. destruct b; cbn [entry_evolves]; repeat split.
+  all: try (exists []; rewrite app_nil_r; reflexivity).
+  all: try (apply list_ext_refl, method_evolves_refl).
+  all: apply list_ext_snoc, method_evolves_refl.
+Qed.
+
+Lemma add_attr_evolves : forall a e, entry_evolves e (add_attr a e).
+Proof.
+  intros a e. destruct e as [| | | | | |n d su inn ct me at_|]; try apply entry_evolves_refl.
+  cbn [add_attr entry_evolves]. repeat split.
+  - exists []. rewrite app_nil_r. reflexivity.
+  - apply list_ext_refl, method_evolves_refl.
+  - apply list_ext_refl, method_evolves_refl.
+  - exists [a]. reflexivity.
+Qed.
+
+Lemma upd_awaiting_evolves : forall a mac extra docs,
+  Forall2 entry_evolves docs (upd_awaiting_entry a mac extra docs).
+Proof.
+  intros a mac extra docs. destruct a as [|idx|cidx ctor]; cbn [upd_awaiting_entry].
+  - apply Forall2_refl, entry_evolves_refl.
+  - apply Forall2_update_nth; [apply entry_evolves_refl|].
+    intro e. destruct e; try apply entry_evolves_refl.
+    cbn [entry_evolves]. repeat split. exists extra. reflexivity.
+  - apply Forall2_update_nth; [apply entry_evolves_refl|].
+    intro e. destruct e as [| | | | | |n d su inn ct me at_|]; try apply entry_evolves_refl.
+    destruct ctor; cbn [entry_evolves]; repeat split.
+    all: try (exists []; rewrite app_nil_r; reflexivity).
+    all: try (apply list_ext_refl, method_evolves_refl).
+    all: apply list_ext_same, Forall2_update_last;
+      [apply method_evolves_refl | intro x; apply upd_method_evolves].
+Qed.
+
+Lemma upd_awaiting_length : forall a mac extra docs,
+  length (upd_awaiting_entry a mac extra docs) = length docs.
+Proof.
+  intros a mac extra docs. symmetry. eapply Forall2_len. apply upd_awaiting_evolves.
+Qed.
+
+(* ---- I1: the documented list is append-only ---------------------------------------- *)
+
+(* st' is reached from st by evolving the existing entries and appending at most n new
+   non-module entries, keeping origins parallel *)
+Definition ev (n : nat) (st st' : agg) : Prop :=
+  exists old' new,
+    documented st' = old' ++ new
+    /\ Forall2 entry_evolves (documented st) old'
+    /\ length new <= n
+    /\ no_module new = true
+    /\ (length (origins st) = length (documented st) ->
+        length (origins st') = length (documented st')).
+
+Lemma ev_refl : forall st, ev 0 st st.
+Proof.
+  intro st. exists (documented st), []. repeat split.
+  - rewrite app_nil_r. reflexivity.
+  - apply Forall2_refl, entry_evolves_refl.
+  - cbn. lia.
+  - auto.
+Qed.
+
+Lemma no_module_evolves : forall l l', Forall2 entry_evolves l l' -> no_module l' = no_module l.
+Proof.
+  intros l l' H. induction H as [|x y l l' Hxy H IH]; [reflexivity|].
+  unfold no_module in *. cbn [forallb]. rewrite IH.
+  rewrite (entry_evolves_is_module _ _ Hxy). reflexivity.
+Qed.
+
+Lemma ev_trans : forall n m k a b c, ev n a b -> ev m b c -> n + m <= k -> ev k a c.
+Proof.
+  intros n m k a b c (o1 & n1 & E1 & F1 & L1 & M1 & O1) (o2 & n2 & E2 & F2 & L2 & M2 & O2) Hk.
+  rewrite E1 in F2. apply Forall2_app_inv_l in F2.
+  destruct F2 as (o2a & o2b & Fa & Fb & Eo). subst o2.
+  exists o2a, (o2b ++ n2). repeat split.
+  - rewrite E2, app_assoc. reflexivity.
+  - eapply Forall2_trans; [apply entry_evolves_trans| |]; eassumption.
+  - rewrite app_length. apply Forall2_len in Fb. lia.
+  - unfold no_module in *. rewrite forallb_app. fold (no_module o2b).
+    rewrite (no_module_evolves _ _ Fb). unfold no_module. rewrite M1, M2. reflexivity.
+  - auto.
+Qed.
+
+Lemma ev_le : forall n k a b, ev n a b -> n <= k -> ev k a b.
+Proof.
+  intros n k a b H Hk. eapply ev_trans; [exact H|apply ev_refl|lia].
+Qed.
+
+Lemma ev_append : forall e d st, is_module e = false -> ev 1 st (append e d st).
+Proof.
+  intros e d st He. exists (documented st), [e]. cbn [append documented origins]. repeat split.
+  - apply Forall2_refl, entry_evolves_refl.
+  - cbn. lia.
+  - unfold no_module. cbn [forallb]. rewrite He. reflexivity.
+  - intro H. rewrite !app_length. cbn [length]. lia.
+Qed.
+
+Lemma ev_docs : forall f st,
+  Forall2 entry_evolves (documented st) (f (documented st)) -> ev 0 st (with_docs f st).
+Proof.
+  intros f st H. exists (f (documented st)), []. cbn [with_docs documented origins]. repeat split.
+  - rewrite app_nil_r. reflexivity.
+  - exact H.
+  - cbn. lia.
+  - intro Ho. rewrite Ho. eapply Forall2_len. exact H.
+Qed.
+
+Lemma ev_update : forall i f st,
+  (forall e, entry_evolves e (f e)) -> ev 0 st (with_docs (update_nth i f) st).
+Proof.
+  intros i f st H. apply ev_docs. apply Forall2_update_nth; [apply entry_evolves_refl|exact H].
+Qed.
+
+Lemma ev_same : forall st st',
+  documented st' = documented st -> origins st' = origins st -> ev 0 st st'.
+Proof.
+  intros st st' Hd Ho. exists (documented st), []. repeat split.
+  - rewrite app_nil_r. exact Hd.
+  - apply Forall2_refl, entry_evolves_refl.
+  - cbn. lia.
+  - rewrite Hd, Ho. auto.
+Qed.
+
+Lemma ev_then_same : forall n st st1 st2, ev n st st1 ->
+  documented st2 = documented st1 -> origins st2 = origins st1 -> ev n st st2.
+Proof.
+  intros n st st1 st2 H Hd Ho. eapply ev_trans; [exact H|apply ev_same; assumption|lia].
+Qed.
+
+Lemma ev_then_update : forall n i f st st1, ev n st st1 ->
+  (forall e, entry_evolves e (f e)) -> ev n st (with_docs (update_nth i f) st1).
+Proof.
+  intros n i f st st1 H Hf. eapply ev_trans; [exact H|apply ev_update; exact Hf|lia].
+Qed.
+
+Section Inv.
+  Variable trigger : str.
+  Variables strip_fn strip_mac strip_mem : str -> str.
+
+  Lemma process_cpa_ev : forall st, ev 0 st (process_cpa st).
+  Proof.
+    intro st. unfold process_cpa. destruct (def_stack st) as [|[i|] r]; try apply ev_refl.
+    apply ev_update. apply set_kwargs_evolves.
+  Qed.
+
+  Lemma handle_ev : forall k c doc docd st st',
+    handle trigger strip_fn strip_mac k c doc docd st = Ok st' -> ev 1 st st'.
+  Proof.
+    intros k c doc docd st st' H.
+    destruct k as [m| | | | |sec| |ctor| | | |]; cbn [handle] in H.
+    - unfold process_def in H. destruct (singles c) as [|name ps]; [discriminate|].
+      injection H as <-. eapply ev_then_same; [apply ev_append|reflexivity|reflexivity]. reflexivity.
+    - injection H as <-. apply ev_le with 0; [apply ev_refl|lia].
+    - injection H as <-. unfold process_class. destruct (singles c) as [|name supers].
+      + apply ev_le with 0; [apply ev_refl|lia].
+      + eapply ev_then_same; [|reflexivity|reflexivity].
+        destruct (class_stack st) as [|[cidx|] r]; try (apply ev_append; reflexivity).
+        apply ev_then_update; [apply ev_append; reflexivity|apply add_inner_evolves].
+    - injection H as <-. apply ev_le with 0; [apply ev_refl|lia].
+    - injection H as <-. apply ev_le with 0; [apply process_cpa_ev|lia].
+    - injection H as <-. unfold process_test.
+      destruct (Nat.ltb _ _); [apply ev_le with 0; [apply ev_refl|lia]|].
+      destruct (scan_name _ _); [|apply ev_le with 0; [apply ev_refl|lia]].
+      eapply ev_then_same; [apply ev_append|reflexivity|reflexivity]. reflexivity.
+    - unfold process_set in H. destruct (singles c) as [|name [|v [|v2 vals]]].
+      + injection H as <-. apply ev_le with 0; [apply ev_refl|lia].
+      + injection H as <-. apply ev_append. reflexivity.
+      + destruct (unquote v); [|discriminate]. injection H as <-. apply ev_append. reflexivity.
+      + injection H as <-. apply ev_append. reflexivity.
+    - injection H as <-. apply ev_le with 0; [|lia]. unfold process_member.
+      destruct (Nat.ltb _ _); [apply ev_refl|].
+      destruct (class_stack st) as [|[cidx|] r]; try apply ev_refl.
+      eapply ev_then_same; [|reflexivity|reflexivity].
+      apply ev_update. apply add_method_evolves.
+    - injection H as <-. apply ev_le with 0; [|lia]. unfold process_attr.
+      destruct (Nat.ltb _ _); [apply ev_refl|].
+      destruct (class_stack st) as [|[cidx|] r]; try apply ev_refl.
+      apply ev_update. apply add_attr_evolves.
+    - injection H as <-. unfold process_add_test.
+      destruct (Nat.ltb _ _); [apply ev_le with 0; [apply ev_refl|lia]|].
+      destruct (scan_name_idx _ _ _) as [[idx name]|]; [|apply ev_le with 0; [apply ev_refl|lia]].
+      apply ev_append. reflexivity.
+    - injection H as <-. unfold process_option.
+      destruct (singles c) as [|n [|h [|v [|x r]]]]; try (apply ev_le with 0; [apply ev_refl|lia]).
+      all: apply ev_append; reflexivity.
+    - injection H as <-. apply ev_le with 0; [apply ev_refl|lia].
+  Qed.
+
+  Lemma enter_documented_ev : forall d c st st',
+    enter_documented trigger strip_fn strip_mac d c st = Ok st' -> ev 1 st st'.
+  Proof.
+    intros d c st st' H. rewrite enter_documented_eq in H.
+    destruct (classify (lower_ascii (c_name c))) as [m| | | | |sec| |ctor| | | |];
+      cbn [enter_documented_k] in H; try (eapply handle_ev; exact H).
+    all: injection H as <-; apply ev_append; reflexivity.
+  Qed.
+
+  Lemma claim_ev : forall m consumed c st, ev 0 st (claim strip_mem m consumed c st).
+  Proof.
+    intros m consumed c st. unfold claim.
+    set (extra := if Nat.ltb 2 _ then _ else _).
+    assert (H : ev 0 st (with_docs (upd_awaiting_entry (awaiting st) m extra) st)).
+    { apply ev_docs. apply upd_awaiting_evolves. }
+    destruct consumed; (eapply ev_then_same; [exact H|reflexivity|reflexivity]).
+  Qed.
+
+  Lemma enter_command_ev : forall fl consumed c st st',
+    enter_command fl trigger strip_fn strip_mac strip_mem consumed c st = Ok st' ->
+    ev (if consumed then 0 else 1) st st'.
+  Proof.
+    intros fl consumed c st st' H. rewrite enter_command_eq in H.
+    destruct (classify (lower_ascii (c_name c))) as [m| | | | |sec| |ctor| | | |] eqn:Ek;
+      cbn [enter_command_k] in H.
+    - destruct (aw_pending (awaiting st)).
+      { injection H as <-. apply ev_le with 0; [apply claim_ev|destruct consumed; lia]. }
+      destruct consumed; [injection H as <-; apply ev_refl|].
+      destruct (flag_of fl (CkDef m)).
+      + apply (handle_ev (CkDef m)) in H. exact H.
+      + injection H as <-. apply ev_le with 0; [apply ev_same; reflexivity|lia].
+    - destruct (def_stack st); [discriminate|]. injection H as <-.
+      apply ev_le with 0; [apply ev_same; reflexivity|destruct consumed; lia].
+    - destruct (negb (inc_cpp_class fl)).
+      { injection H as <-. apply ev_le with 0; [apply ev_same; reflexivity|destruct consumed; lia]. }
+      destruct consumed; [injection H as <-; apply ev_refl|].
+      apply (handle_ev CkClass c [] false). exact H.
+    - destruct (class_stack st); [discriminate|]. injection H as <-.
+      apply ev_le with 0; [apply ev_same; reflexivity|destruct consumed; lia].
+    - injection H as <-. apply ev_le with 0; [apply process_cpa_ev|destruct consumed; lia].
+    - destruct consumed; [injection H as <-; apply ev_refl|].
+      destruct (flag_of fl (CkTest sec)); [eapply handle_ev; exact H|].
+      injection H as <-. apply ev_le with 0; [apply ev_refl|lia].
+    - injection H as <-. apply ev_le with 0; [apply ev_refl|destruct consumed; lia].
+    - destruct consumed; [injection H as <-; apply ev_refl|].
+      destruct (flag_of fl (CkMember ctor)); [eapply handle_ev; exact H|].
+      injection H as <-. apply ev_le with 0; [apply ev_refl|lia].
+    - destruct consumed; [injection H as <-; apply ev_refl|].
+      destruct (flag_of fl CkAttr); [eapply handle_ev; exact H|].
+      injection H as <-. apply ev_le with 0; [apply ev_refl|lia].
+    - destruct consumed; [injection H as <-; apply ev_refl|].
+      destruct (flag_of fl CkAddTest); [eapply handle_ev; exact H|].
+      injection H as <-. apply ev_le with 0; [apply ev_refl|lia].
+    - destruct consumed; [injection H as <-; apply ev_refl|].
+      destruct (flag_of fl CkOption); [eapply handle_ev; exact H|].
+      injection H as <-. apply ev_le with 0; [apply ev_refl|lia].
+    - injection H as <-. apply ev_le with 0; [apply ev_refl|destruct consumed; lia].
+  Qed.
+
+  Lemma agg_step_ev : forall fl st e st',
+    agg_step fl trigger strip_fn strip_mac strip_mem st e = Ok st' -> ev 1 st st'.
+  Proof.
+    intros fl st e st' H. destruct e as [d c|c|d]; cbn [agg_step] in H.
+    - destruct (enter_documented trigger strip_fn strip_mac d c st) as [st1|] eqn:E1; [|discriminate].
+      apply enter_documented_ev in E1. apply enter_command_ev in H.
+      eapply ev_trans; [exact E1|exact H|lia].
+    - apply enter_command_ev in H. exact H.
+    - injection H as <-. apply ev_le with 0; [apply ev_refl|lia].
+  Qed.
+
+  Lemma agg_run_ev : forall fl es st st',
+    agg_run fl trigger strip_fn strip_mac strip_mem st es = Ok st' -> ev (length es) st st'.
+  Proof.
+    intros fl es. induction es as [|e r IH]; intros st st' H; cbn [agg_run] in H.
+    - injection H as <-. apply ev_refl.
+    - destruct (agg_step fl trigger strip_fn strip_mac strip_mem st e) as [st1|] eqn:E1; [|discriminate].
+      apply agg_step_ev in E1. apply IH in H.
+      eapply ev_trans; [exact E1|exact H|]. cbn [length]. lia.
+  Qed.
+
+  (* I1 *)
+  Theorem agg_step_append_only : forall fl st e st',
+    agg_step fl trigger strip_fn strip_mac strip_mem st e = Ok st' ->
+    exists old' new,
+      documented st' = old' ++ new /\ length new <= 1
+      /\ Forall2 entry_evolves (documented st) old'
+      /\ length (documented st') = length (documented st) + length new.
+  Proof.
+    intros fl st e st' H. apply agg_step_ev in H.
+    destruct H as (o & n & E & F & L & _ & _). exists o, n. repeat split; try assumption.
+    rewrite E, app_length. apply Forall2_len in F. lia.
+  Qed.
+
+  Corollary agg_step_append_only_firstn : forall fl st e st',
+    agg_step fl trigger strip_fn strip_mac strip_mem st e = Ok st' ->
+    Forall2 entry_evolves (documented st) (firstn (length (documented st)) (documented st'))
+    /\ length (documented st) <= length (documented st') <= length (documented st) + 1.
+  Proof.
+    intros fl st e st' H. apply agg_step_append_only in H.
+    destruct H as (o & n & E & L & F & Hl). pose proof (Forall2_len _ _ _ F) as Hlen.
+    split; [|lia]. rewrite E, Hlen. rewrite firstn_app, Nat.sub_diag, firstn_all. cbn [firstn].
+    rewrite app_nil_r. exact F.
+  Qed.
+
+  Theorem agg_run_append_only : forall fl st es st',
+    agg_run fl trigger strip_fn strip_mac strip_mem st es = Ok st' ->
+    exists old' new,
+      documented st' = old' ++ new /\ length new <= length es
+      /\ Forall2 entry_evolves (documented st) old'.
+  Proof.
+    intros fl st es st' H. apply agg_run_ev in H.
+    destruct H as (o & n & E & F & L & _ & _). exists o, n. auto.
+  Qed.
+
+  Lemma map_ekey_evolves : forall l l', Forall2 entry_evolves l l' -> map ekey l' = map ekey l.
+  Proof.
+    intros l l' H. induction H as [|x y l l' Hxy H IH]; [reflexivity|].
+    cbn [map]. rewrite IH, (entry_evolves_ekey _ _ Hxy). reflexivity.
+  Qed.
+
+  Theorem agg_run_keys_prefix : forall fl st es st',
+    agg_run fl trigger strip_fn strip_mac strip_mem st es = Ok st' ->
+    exists ks, map ekey (documented st') = map ekey (documented st) ++ ks
+               /\ length ks <= length es.
+  Proof.
+    intros fl st es st' H. apply agg_run_append_only in H.
+    destruct H as (o & n & E & L & F). exists (map ekey n). rewrite E, map_app.
+    rewrite (map_ekey_evolves _ _ F), map_length. auto.
+  Qed.
+
+  (* origins stays parallel to documented *)
+  Theorem origins_parallel_step : forall fl st e st',
+    length (origins st) = length (documented st) ->
+    agg_step fl trigger strip_fn strip_mac strip_mem st e = Ok st' ->
+    length (origins st') = length (documented st').
+  Proof.
+    intros fl st e st' Ho H. apply agg_step_ev in H. destruct H as (o & n & _ & _ & _ & _ & O).
+    auto.
+  Qed.
+
+  Theorem origins_parallel_run : forall fl st es st',
+    length (origins st) = length (documented st) ->
+    agg_run fl trigger strip_fn strip_mac strip_mem st es = Ok st' ->
+    length (origins st') = length (documented st').
+  Proof.
+    intros fl st es st' Ho H. apply agg_run_ev in H. destruct H as (o & n & _ & _ & _ & _ & O).
+    auto.
+  Qed.
+
+  Theorem origins_parallel : forall fl f st,
+    aggregate fl trigger strip_fn strip_mac strip_mem f = Ok st ->
+    length (origins st) = length (documented st).
+  Proof.
+    intros fl f st H. unfold aggregate in H. eapply origins_parallel_run; [|exact H].
+    destruct (f_module f); reflexivity.
+  Qed.
+
+  (* ---- I2 -------------------------------------------------------------------------- *)
+
+  Theorem dangling_no_effect : forall fl st d,
+    agg_step fl trigger strip_fn strip_mac strip_mem st (EDangling d) = Ok st.
+  Proof. reflexivity. Qed.
+
+  Lemma lookup_none_classify : forall k,
+    lookup k handler_table = None -> is_pop_kind k = false -> classify k = CkOther.
+  Proof.
+    intros k Hl Hp. pose proof (classify_spec k) as Hk.
+    destruct (classify k) as [[|]| | | | |[|]| |[|]| | | |]; try reflexivity;
+      try (subst k; vm_compute in Hl; discriminate Hl).
+    - destruct Hk as [Hk|Hk]; subst k; vm_compute in Hp; discriminate Hp.
+    - subst k; vm_compute in Hp; discriminate Hp.
+  Qed.
+
+  Theorem undocumented_other_no_effect : forall fl st c,
+    lookup (lower_ascii (c_name c)) handler_table = None ->
+    is_pop_kind (lower_ascii (c_name c)) = false ->
+    agg_step fl trigger strip_fn strip_mac strip_mem st (ECmd c) = Ok st.
+  Proof.
+    intros fl st c Hl Hp. cbn [agg_step]. rewrite enter_command_eq.
+    rewrite (lookup_none_classify _ Hl Hp). reflexivity.
+  Qed.
+
+  (* ---- I3 -------------------------------------------------------------------------- *)
+
+  Lemma is_def_name_classify : forall k, is_def_name k = true -> exists m, classify k = CkDef m.
+  Proof.
+    intros k H. unfold is_def_name in H. apply orb_true_iff in H.
+    destruct H as [H|H]; apply str_eqb_eq in H; subst k; [exists false|exists true]; reflexivity.
+  Qed.
+
+  Theorem claimed_definition_no_entry : forall fl st c,
+    is_def_name (lower_ascii (c_name c)) = true ->
+    awaiting st <> AwNone ->
+    exists st',
+      agg_step fl trigger strip_fn strip_mac strip_mem st (ECmd c) = Ok st'
+      /\ length (documented st') = length (documented st)
+      /\ awaiting st' = AwNone
+      /\ def_stack st' = None :: def_stack st
+      /\ class_stack st' = class_stack st.
+  Proof.
+    intros fl st c Hd Ha. cbn [agg_step]. rewrite enter_command_eq.
+    destruct (is_def_name_classify _ Hd) as [m Hm]. rewrite Hm. cbn [enter_command_k].
+    assert (Hp : aw_pending (awaiting st) = true).
+    { destruct (awaiting st); [contradiction Ha|..]; reflexivity. }
+    rewrite Hp. eexists. split; [reflexivity|]. unfold claim.
+    cbn [documented with_def_stack with_awaiting with_docs awaiting def_stack class_stack].
+    rewrite upd_awaiting_length. auto.
+  Qed.
+
+  (* ---- I4 -------------------------------------------------------------------------- *)
+
+  Theorem module_only_first : forall fl f st,
+    aggregate fl trigger strip_fn strip_mac strip_mem f = Ok st ->
+    (f_module f = None -> no_module (documented st) = true)
+    /\ (forall t, f_module f = Some t ->
+          exists rest, documented st = module_entry t :: rest /\ no_module rest = true).
+  Proof.
+    intros fl f st H. unfold aggregate in H. apply agg_run_ev in H.
+    destruct H as (o & n & E & F & _ & M & _). split.
+    - intro Hm. rewrite Hm in F. cbn in F. inversion F; subst. rewrite E. exact M.
+    - intros t Hm. rewrite Hm in F. cbn [append documented agg_init app] in F.
+      inversion F as [|x y l l' Hxy Hl]; subst. inversion Hl; subst.
+      unfold module_entry in Hxy. apply entry_evolves_module in Hxy. subst y.
+      exists n. split; [exact E|exact M].
+  Qed.
+End Inv.
+
+(* ---- I5: command names are case-insensitive ---------------------------------------- *)
+
+Lemma lower_upper_char : forall c, lower_char (upper_char_ascii c) = lower_char c.
+Proof.
+  intro c. unfold lower_char, upper_char_ascii.
+  destruct ((97 <=? c) && (c <=? 122))%N eqn:E1.
+  - apply andb_true_iff in E1. destruct E1 as [A B].
+    apply N.leb_le in A. apply N.leb_le in B.
+    assert (H1 : ((65 <=? c - 32) && (c - 32 <=? 90))%N = true).
+    { apply andb_true_iff. split; apply N.leb_le; lia. }
+    assert (H2 : ((65 <=? c) && (c <=? 90))%N = false).
+    { apply andb_false_iff. right. apply N.leb_gt. lia. }
+    rewrite H1, H2. lia.
+  - reflexivity.
+Qed.
+
+Lemma lower_lower_char : forall c, lower_char (lower_char c) = lower_char c.
+Proof.
+  intro c. unfold lower_char.
+  destruct ((65 <=? c) && (c <=? 90))%N eqn:E1; [|rewrite E1; reflexivity].
+  apply andb_true_iff in E1. destruct E1 as [A B].
+  apply N.leb_le in A. apply N.leb_le in B.
+  assert (H2 : ((65 <=? c + 32) && (c + 32 <=? 90))%N = false).
+  { apply andb_false_iff. right. apply N.leb_gt. lia. }
+  rewrite H2. reflexivity.
+Qed.
+
+Lemma lower_ascii_upper : forall n, lower_ascii (map upper_char_ascii n) = lower_ascii n.
+Proof.
+  intro n. unfold lower_ascii. rewrite map_map. apply map_ext. apply lower_upper_char.
+Qed.
+
+Lemma lower_ascii_idem : forall n, lower_ascii (lower_ascii n) = lower_ascii n.
+Proof.
+  intro n. unfold lower_ascii. rewrite map_map. apply map_ext. apply lower_lower_char.
+Qed.
+
+Section Recase.
+  Variable trigger : str.
+  Variables strip_fn strip_mac strip_mem : str -> str.
+  Variable g : str -> str.
+  Hypothesis g_lower : forall n, lower_ascii (g n) = lower_ascii n.
+
+  Lemma enter_documented_recase : forall d c st,
+    enter_documented trigger strip_fn strip_mac d (recase_cmd g c) st
+    = enter_documented trigger strip_fn strip_mac d c st.
+  Proof.
+    intros d c st. unfold enter_documented.
+    change (c_name (recase_cmd g c)) with (g (c_name c)). rewrite g_lower.
+    destruct (lookup (lower_ascii (c_name c)) handler_table) as [h|]; [|reflexivity].
+    destruct h; reflexivity.
+  Qed.
+
+  Lemma enter_command_recase : forall fl consumed c st,
+    enter_command fl trigger strip_fn strip_mac strip_mem consumed (recase_cmd g c) st
+    = enter_command fl trigger strip_fn strip_mac strip_mem consumed c st.
+  Proof.
+    intros fl consumed c st. unfold enter_command.
+    change (c_name (recase_cmd g c)) with (g (c_name c)). rewrite g_lower.
+    change (singles (recase_cmd g c)) with (singles c).
+    destruct (lookup (lower_ascii (c_name c)) handler_table) as [h|]; [|reflexivity].
+    destruct h; reflexivity.
+  Qed.
+
+  Theorem agg_step_recase : forall fl st e,
+    agg_step fl trigger strip_fn strip_mac strip_mem st (recase_elem g e)
+    = agg_step fl trigger strip_fn strip_mac strip_mem st e.
+  Proof.
+    intros fl st e. destruct e as [d c|c|d]; cbn [recase_elem agg_step].
+    - rewrite enter_documented_recase.
+      destruct (enter_documented trigger strip_fn strip_mac d c st); [|reflexivity].
+      apply enter_command_recase.
+    - apply enter_command_recase.
+    - reflexivity.
+  Qed.
+
+  Theorem agg_run_recase : forall fl es st,
+    agg_run fl trigger strip_fn strip_mac strip_mem st (map (recase_elem g) es)
+    = agg_run fl trigger strip_fn strip_mac strip_mem st es.
+  Proof.
+    intros fl es. induction es as [|e r IH]; intro st; cbn [map agg_run]; [reflexivity|].
+    rewrite agg_step_recase.
+    destruct (agg_step fl trigger strip_fn strip_mac strip_mem st e); [apply IH|reflexivity].
+  Qed.
+
+  Theorem aggregate_recase : forall fl f,
+    aggregate fl trigger strip_fn strip_mac strip_mem (recase_file g f)
+    = aggregate fl trigger strip_fn strip_mac strip_mem f.
+  Proof.
+    intros fl f. unfold aggregate, recase_file. cbn [f_module f_elems]. apply agg_run_recase.
+  Qed.
+End Recase.
+
+Corollary aggregate_upper_case : forall fl trigger strip_fn strip_mac strip_mem f,
+  aggregate fl trigger strip_fn strip_mac strip_mem (recase_file (map upper_char_ascii) f)
+  = aggregate fl trigger strip_fn strip_mac strip_mem f.
+Proof. intros. apply aggregate_recase. apply lower_ascii_upper. Qed.
+
+Corollary aggregate_lower_case : forall fl trigger strip_fn strip_mac strip_mem f,
+  aggregate fl trigger strip_fn strip_mac strip_mem (recase_file lower_ascii f)
+  = aggregate fl trigger strip_fn strip_mac strip_mem f.
+Proof. intros. apply aggregate_recase. apply lower_ascii_idem. Qed.
